@@ -34,7 +34,10 @@ def thorough(chk, prop):
     # (c) seeded changes from independent sub-agents
     for meta in sorted(glob.glob(os.path.join(selftest.VERIF, "seeded", "*", "meta.json"))):
         m = json.load(open(meta))
-        if m.get("property") != prop and prop not in m.get("detected_by_properties", []):
+        # which checks must report this change: the list recorded when it was evaluated (a change that its own property's check
+        # cannot see -- documented as a limit -- is a control of the neighbours that do), else the property it was written for
+        must = m.get("detected_by_properties") or [m.get("property")]
+        if prop not in must:
             continue
         d = os.path.dirname(meta)
         r = selftest.run_mutant({"name": "seed:" + os.path.basename(d), "property": prop, "patch": os.path.relpath(os.path.join(d, "patch.diff"), selftest.VERIF), "expect": ""})
